@@ -219,7 +219,7 @@ def run_op(pool, op):
             if np.ndim(pr.variance_thresholds):
                 owned.append(pr.variance_thresholds)
             return mm, owned
-        probe = make_probe(train, ["weights", "means", "variances"], None)
+        probe = make_probe(train, ["weights", "means", "variances", "variance_thresholds"], None)
     elif name == "ubm_stats":
         res = {"acc": pool.ubm.acc_stats(data), "ll": pool.ubm.log_likelihood(data), "lwl": pool.ubm.log_weighted_likelihood(data),
                "tr": pool.ubm.transform([pool.X, pool.X[:2]])}
